@@ -133,6 +133,10 @@ struct Out {
 
 fn run_world(ctx: &mut Ctx, kind: Kind, histories: Vec<Vec<Op>>, cut_points: Vec<usize>, successor: bool) {
     let nsub = histories.len();
+    // with a successor: does subscriber 0 announce an identity that its successor announces too,
+    // and is it still connected when the successor arrives?
+    let named = successor && ctx.plan_bool();
+    let overlap = named && ctx.plan_bool();
     let out = Rc::new(RefCell::new(Out { viol: vec![], done: false, probes_judged: 0, matched: 0, unmatched: 0 }));
     let o2 = out.clone();
     let h2 = histories.clone();
@@ -143,7 +147,7 @@ fn run_world(ctx: &mut Ctx, kind: Kind, histories: Vec<Vec<Op>>, cut_points: Vec
         let mut peers = Vec::new();
         for i in 0..nsub {
             let mut p = RawPeer::connect(&ep).expect("connect");
-            p.hello(stypes[i], None).await.expect("hello");
+            p.hello(stypes[i], if named && i == 0 { Some(&b"durable"[..]) } else { None }).await.expect("hello");
             // a healthy subscriber: its pipe accepts every write at once
             p.conn.set_io(1, |io| io.wyield_pm = 0);
             p.conn.set_cap(1, 1 << 40);
@@ -253,16 +257,25 @@ fn run_world(ctx: &mut Ctx, kind: Kind, histories: Vec<Vec<Op>>, cut_points: Vec
         // exactly what it subscribes to
         if successor {
             let gone = peers.remove(0);
-            gone.close();
+            let mut still_open = None;
+            if overlap {
+                rt::count("probe_successor_while_predecessor_still_connected");
+                still_open = Some(gone);
+            } else {
+                gone.close();
+            }
             rt::task::idle().await;
             if kind == Kind::Xpub {
                 while let Some(Ok(_)) = rt::future::or_idle(sock.recv()).await {}
             }
             let mut p = RawPeer::connect(&ep).expect("connect");
-            p.hello(stypes[0], None).await.expect("hello");
+            p.hello(stypes[0], if named { Some(&b"durable"[..]) } else { None }).await.expect("hello");
             p.conn.set_io(1, |io| io.wyield_pm = 0);
             p.conn.set_cap(1, 1 << 40);
             rt::task::idle().await;
+            if kind == Kind::Xpub {
+                while let Some(Ok(_)) = rt::future::or_idle(sock.recv()).await {}
+            }
             for round in 0..2 {
                 let mut expect: Vec<Vec<Vec<u8>>> = Vec::new();
                 let before = p.inbound().messages().len();
@@ -294,6 +307,7 @@ fn run_world(ctx: &mut Ctx, kind: Kind, histories: Vec<Vec<Op>>, cut_points: Vec
             }
             rt::count("probe_successor_judged");
             peers.push(p);
+            drop(still_open);
         }
         o2.borrow_mut().done = true;
         world::park().await;
@@ -517,7 +531,7 @@ pub fn def() -> PropDef {
     PropDef {
         id: "C11",
         level: "exploration",
-        rule: "hist_enum: case index enumerates every history of length <= 4 over the 9 subscriber operations {subscribe/unsubscribe x topics '', 'a', 'ab', 'b', garbage} for PUB (indices 0..7381) and XPUB (7382..14763), then both again with the letters of the alphabet sent as bytes that are not valid UTF-8 (ff, fe, c3); the random strata use that alphabet in every other case; at a mid-point and at the end the publisher sends all 7 probe first-frames {'', a, ab, abc, b, ba, c} and each subscriber's tap is compared with the multiset-prefix reference model (probe messages alternate between one frame, two frames whose second would complete a longer topic if frames were concatenated, and three frames with an empty one in between); hist_random: 1..3 subscribers, histories <= 8, drawn quiescent points, random transport and schedule; in one case in three subscriber 0 then leaves and a fresh connection takes its place, which must receive nothing before it subscribes and exactly its matches afterwards; non-trivial = at least one probe matched and one did not; distinct = distinct (case, plan, schedule, transport)",
+        rule: "hist_enum: case index enumerates every history of length <= 4 over the 9 subscriber operations {subscribe/unsubscribe x topics '', 'a', 'ab', 'b', garbage} for PUB (indices 0..7381) and XPUB (7382..14763), then both again with the letters of the alphabet sent as bytes that are not valid UTF-8 (ff, fe, c3); the random strata use that alphabet in every other case; at a mid-point and at the end the publisher sends all 7 probe first-frames {'', a, ab, abc, b, ba, c} and each subscriber's tap is compared with the multiset-prefix reference model (probe messages alternate between one frame, two frames whose second would complete a longer topic if frames were concatenated, and three frames with an empty one in between); hist_random: 1..3 subscribers, histories <= 8, drawn quiescent points, random transport and schedule; in one case in three subscriber 0 then leaves and a fresh connection takes its place, which must receive nothing before it subscribes and exactly its matches afterwards (in half of these the two connections announce the same identity, and in half of those the first is still connected when the second arrives); non-trivial = at least one probe matched and one did not; distinct = distinct (case, plan, schedule, transport)",
         assumptions: &["matching is compared only at quiescent points (all subscription messages sent so far have been processed)", "subscribers accept every write (their pipes never answer Pending on writes), so nothing may be dropped"],
         strata: vec![
             Stratum { name: "hist_enum", quick: 4 * NHIST4, thorough: 4 * NHIST4, exhaustive: (true, true), run: hist_enum, what: "all 7382 histories <= 4 for PUB and for XPUB, one subscriber, with an ASCII and with a non-UTF-8 topic alphabet" },
